@@ -451,6 +451,24 @@ def make_app(spec: tuple, rec: Rec) -> Callable:
             return Iter()
         if kind == "iter_close_lazy":
             return Iter(sr)
+        if kind == "iterable_close":
+            # an iterable (not an iterator) with close(): __iter__ hands out a different object, and PEP 3333
+            # wants close() called on the object the application returned
+            class Iterable:
+                def __iter__(self) -> Any:
+                    def it() -> Any:
+                        for c in chunks:
+                            rec.events.append("next")
+                            yield c
+                        rec.events.append("stop")
+                    return it()
+
+                def close(self) -> None:
+                    rec.close_count += 1
+                    rec.events.append("close")
+
+            start(sr, status, headers)
+            return Iterable()
         if kind == "twice_excinfo":
             start(sr, status, headers)
             try:
